@@ -133,8 +133,125 @@ func (c *Ctx) AnalyseRuneLoop(fn *ssa.Function, pi int) (*RuneLoop, error) {
 			}
 		}
 	}
+	// … and the constants of the predicates of the module the rune is handed to
+	for _, b := range fn.Blocks {
+		for _, in := range b.Instrs {
+			call, ok := in.(*ssa.Call)
+			if !ok || len(call.Call.Args) != 1 || !rl.isRune(call.Call.Args[0]) {
+				continue
+			}
+			f := call.Call.StaticCallee()
+			if f == nil || !inRepo(f) || len(f.Params) != 1 {
+				continue
+			}
+			for _, fb := range origin(f).Blocks {
+				for _, fin := range fb.Instrs {
+					if bo, ok := fin.(*ssa.BinOp); ok {
+						for _, v := range []ssa.Value{bo.X, bo.Y} {
+							if k, ok := constInt(v); ok && !seen[k] {
+								seen[k] = true
+								rl.Consts = append(rl.Consts, k)
+							}
+						}
+					}
+				}
+			}
+		}
+	}
 	sort.Slice(rl.Consts, func(i, j int) bool { return rl.Consts[i] < rl.Consts[j] })
 	return rl, nil
+}
+
+// predOnInterval evaluates a one-parameter boolean function of the module for an argument known only to lie in
+// [lo, hi]: every branch and the returned value must be decided by comparisons of the parameter with constants.
+func predOnInterval(fn *ssa.Function, lo, hi int64) (bool, bool) {
+	if len(fn.Blocks) == 0 || len(fn.Params) != 1 {
+		return false, false
+	}
+	param := fn.Params[0]
+	isParam := func(v ssa.Value) bool {
+		for i := 0; i < 4; i++ {
+			if v == ssa.Value(param) {
+				return true
+			}
+			switch c := v.(type) {
+			case *ssa.Convert:
+				v = c.X
+			case *ssa.ChangeType:
+				v = c.X
+			default:
+				return false
+			}
+		}
+		return false
+	}
+	phiVal := map[*ssa.Phi]ssa.Value{}
+	var eval func(v ssa.Value, depth int) (bool, bool)
+	eval = func(v ssa.Value, depth int) (bool, bool) {
+		if depth > 12 {
+			return false, false
+		}
+		switch x := v.(type) {
+		case *ssa.Const:
+			if x.Value != nil && x.Value.Kind() == constant.Bool {
+				return constant.BoolVal(x.Value), true
+			}
+		case *ssa.UnOp:
+			if x.Op == token.NOT {
+				r, ok := eval(x.X, depth+1)
+				return !r, ok
+			}
+		case *ssa.Phi:
+			if pv, ok := phiVal[x]; ok {
+				return eval(pv, depth+1)
+			}
+		case *ssa.BinOp:
+			op, a, b := x.Op, x.X, x.Y
+			if _, isC := a.(*ssa.Const); isC {
+				a, b = b, a
+				op = flip(op)
+			}
+			if k, isK := constInt(b); isK && isParam(a) {
+				return cmpInterval(op, lo, hi, k)
+			}
+		}
+		return false, false
+	}
+	var prev *ssa.BasicBlock
+	b := fn.Blocks[0]
+	for steps := 0; steps < 64; steps++ {
+		for _, in := range b.Instrs {
+			if ph, ok := in.(*ssa.Phi); ok && prev != nil {
+				for i, p := range b.Preds {
+					if p == prev {
+						phiVal[ph] = ph.Edges[i]
+					}
+				}
+			}
+		}
+		switch t := b.Instrs[len(b.Instrs)-1].(type) {
+		case *ssa.Return:
+			if len(t.Results) != 1 {
+				return false, false
+			}
+			return eval(t.Results[0], 0)
+		case *ssa.Jump:
+			prev, b = b, b.Succs[0]
+		case *ssa.If:
+			r, ok := eval(t.Cond, 0)
+			if !ok {
+				return false, false
+			}
+			if r {
+				prev, b = b, b.Succs[0]
+			} else {
+				prev, b = b, b.Succs[1]
+			}
+		default:
+			return false, false
+		}
+	}
+	return false, false
 }
 
 func (rl *RuneLoop) isRune(v ssa.Value) bool {
@@ -393,6 +510,14 @@ func (rl *RuneLoop) cond(v ssa.Value, lo, hi int64, nonEmpty bool, prev, cur *ss
 			return rl.cond(v, lo, hi, nonEmpty, prev, cur)
 		}
 		return false, false, fmt.Sprintf("phi %s was not passed on this path", x.Name())
+	case *ssa.Call:
+		// a predicate of the module applied to the rune (isDigit(r), isSeparator(r)): decided on the same interval
+		if f := x.Call.StaticCallee(); f != nil && inRepo(f) && len(x.Call.Args) == 1 && rl.isRune(x.Call.Args[0]) && len(f.Params) == 1 {
+			if r, ok := predOnInterval(origin(f), lo, hi); ok {
+				return r, true, ""
+			}
+			return false, false, fmt.Sprintf("the predicate %s is not decided on the class [%d,%d]", f.Name(), lo, hi)
+		}
 	case *ssa.BinOp:
 		op := x.Op
 		a, b := x.X, x.Y
